@@ -47,6 +47,7 @@ func init() {
 		}
 		type ent struct{ set, unset uint64 }
 		tab := map[string]*ent{}
+		var valueRecv []string
 		fs := token.NewFileSet()
 		files, _ := filepath.Glob(repo + "/c2/*.go")
 		sort.Strings(files)
@@ -65,10 +66,16 @@ func init() {
 					continue
 				}
 				name := fd.Name.Name
+				recvName, recvPtr := "", true
 				if fd.Recv != nil && len(fd.Recv.List) == 1 {
 					t := fd.Recv.List[0].Type
+					if len(fd.Recv.List[0].Names) == 1 {
+						recvName = fd.Recv.List[0].Names[0].Name
+					}
 					if st, ok := t.(*ast.StarExpr); ok {
 						t = st.X
+					} else {
+						recvPtr = false
 					}
 					if id, ok := t.(*ast.Ident); ok {
 						name = id.Name + "." + name
@@ -96,6 +103,13 @@ func init() {
 					if !on {
 						return true
 					}
+					// a method with a VALUE receiver that changes flags through that receiver changes a copy:
+					// the update is lost for everyone else (the forwarders stateSet/stateUnset included)
+					if r, ok := se.X.(*ast.SelectorExpr); ok && !recvPtr && recvName != "" {
+						if id, ok := r.X.(*ast.Ident); ok && id.Name == recvName {
+							valueRecv = append(valueRecv, fmt.Sprintf("%q", name))
+						}
+					}
 					v, ok := eval(x.Args[0])
 					if !ok {
 						return true // a parameter passed on (the forwarders) or a computed mask: fact c13NonConstantFlagMasks covers these
@@ -114,6 +128,7 @@ func init() {
 				})
 			}
 		}
+		f.Raw("c13ValueReceiverMutators", "List String", "["+strings.Join(valueRecv, ", ")+"]")
 		var ks []string
 		for k := range tab {
 			ks = append(ks, k)
